@@ -16,7 +16,7 @@ EXTENDS Integers, Sequences, FiniteSets, TLC, Json
 CONSTANTS MaxLen, NSeed, NParam, EmitLen,
           OpFilter     \* the operations a configuration may use (AllOps, or a focused subset)
 
-\* operation |-> <<argument kinds, result kind>> ; "C" contract, "L" constraint list, "S" scalar/none
+\* operation |-> <<argument kinds, result kind>> ; "C" contract, "L" constraint list, "K" compound contract, "S" scalar/none
 Sig == [ compose |-> <<(<<"C", "C">>), "C">>, quotient |-> <<(<<"C", "C">>), "C">>, merge |-> <<(<<"C", "C">>), "C">>,
          refines |-> <<(<<"C", "C">>), "S">>, rename |-> <<(<<"C">>), "C">>, copy |-> <<(<<"C">>), "C">>,
          simplify |-> <<(<<"L", "L">>), "L">>, elim_refine |-> <<(<<"L", "L">>), "L">>, elim_relax |-> <<(<<"L", "L">>), "L">>,
@@ -25,9 +25,16 @@ Sig == [ compose |-> <<(<<"C", "C">>), "C">>, quotient |-> <<(<<"C", "C">>), "C"
          list_refines |-> <<(<<"L", "L">>), "S">>, contains |-> <<(<<"L">>), "S">>, union |-> <<(<<"L", "L">>), "L">>,
          terms_with_vars |-> <<(<<"L">>), "L">>, is_empty |-> <<(<<"L">>), "S">>, list_copy |-> <<(<<"L">>), "L">>,
          difference |-> <<(<<"L", "L">>), "L">>, contains_env |-> <<(<<"C", "L">>), "S">>, contains_impl |-> <<(<<"C", "L">>), "S">>,
-         printed |-> <<(<<"C">>), "S">>, evaluate |-> <<(<<"L">>), "L">> ]
+         printed |-> <<(<<"C">>), "S">>, evaluate |-> <<(<<"L">>), "L">>,
+         \* the ONE public operation that edits its target: IoContract.simplify() replaces the guarantees of the contract it is
+         \* called on (the pool slot appended is an independent rebuild of the target's new value)
+         simplify_inplace |-> <<(<<"C">>), "C">>,
+         hash_eq |-> <<(<<"C", "C">>), "S">>, list_hash_eq |-> <<(<<"L", "L">>), "S">>,
+         cmerge |-> <<(<<"K", "K">>), "K">>, ccontains |-> <<(<<"K">>), "S">>, cprinted |-> <<(<<"K">>), "S">>, ceq |-> <<(<<"K", "K">>), "S">> ]
+Mutators == {"simplify_inplace"}      \* operations allowed to change their FIRST argument, and nothing else
 AllOps == DOMAIN Sig
 FocusOps == {"compose", "quotient", "copy", "elim_refine", "merge"}
+HashOps == {"copy", "simplify_inplace", "hash_eq", "rename", "dict_roundtrip"}
 Ops == DOMAIN Sig \cap OpFilter
 
 VARIABLES kinds,   \* kinds[i] : kind of pool member i ("C" / "L" / "S")
@@ -36,7 +43,7 @@ VARIABLES kinds,   \* kinds[i] : kind of pool member i ("C" / "L" / "S")
                    \* first makes -simulate sample operations uniformly, not in proportion to their argument choices
 vars == <<kinds, hist, pend>>
 
-Init == kinds = [i \in 1..NSeed |-> IF i % 3 = 0 THEN "L" ELSE "C"] /\ hist = <<>> /\ pend = "none"
+Init == kinds = [i \in 1..NSeed |-> IF i % 3 = 0 THEN "L" ELSE IF i % 4 = 0 THEN "K" ELSE "C"] /\ hist = <<>> /\ pend = "none"
 
 ArgChoices(ks) ==   \* all index tuples into the pool with the required kinds
   IF Len(ks) = 0 THEN {<<>>}
@@ -70,7 +77,15 @@ Emit == (Len(hist) = EmitLen + 1) => PrintT(<<"HISTORY", ToJson(SubSeq(hist, 1, 
 (* ---- the laws, over one observation record ------------------------------ *)
 (* o: [pre, post, alias : Seq(snapshot id), gpre, gpost : snapshot id,     *)
 (*     res, fresh : snapshot id, exc, fexc : STRING]                        *)
-OperandsUnchanged(o) == o.post = o.pre /\ o.gpost = o.gpre
+(*     pairs : Seq(<<x == y, hash(x) = hash(y)>>) (hash_eq / list_hash_eq)] *)
+Untouched(o, i) == o.post[i] = o.pre[i]
+OperandsUnchanged(o) ==
+  /\ o.gpost = o.gpre /\ Len(o.post) = Len(o.pre)
+  /\ \A i \in DOMAIN o.pre : Untouched(o, i) \/ (o.op \in Mutators /\ i = o.args[1])
+\* a mutator leaves its target in exactly the state it reports
+TargetAsReported(o) == (o.op \in Mutators /\ o.exc = "none") => o.post[o.args[1]] = o.res
+\* equal objects hash equally, at every point of a session (C19)
+HashCoherent(o) == \A k \in DOMAIN o.pairs : o.pairs[k][1] => o.pairs[k][2]
 NoAliasing(o) == o.alias = o.post
 FreshAgrees(o) == o.fresh = o.res /\ o.fexc = o.exc
 =====================================================================
